@@ -601,7 +601,7 @@ def run(ctx):
                          'segvar (Python segment builders vs as-written models, exact order), direct (pairwise comparison of ~25 observables per forest), '
                          'history (2–5 in-place steps with warm caches per back-end); non-trivial when ≥ 3 nodes')
     timings = {}
-    mods = [('c05', c05, 30, 220), ('c10', c10, 25, 150), ('c12', c12, 20, 150)]
+    mods = [('c05', c05, 20, 150), ('c10', c10, 14, 90), ('c12', c12, 20, 150)]
     for nm in EXTRA_STREAMS:
         m = optional(nm)
         if m is not None and hasattr(m, 'gen_cases') and hasattr(m, 'RUNNERS'):
@@ -638,7 +638,7 @@ def run(ctx):
                 finally:
                     ctx.budget = orig_budget
                 timings[f'{nm}[{be}]'] = round(time.time() - t0, 1)
-    for name, gen, q, t in (('sweep', gen_sweep, 110, 1500), ('segvar', gen_segvar, 70, 1000), ('direct', gen_direct, 32, 200),
+    for name, gen, q, t in (('sweep', gen_sweep, 110, 1500), ('segvar', gen_segvar, 70, 1000), ('direct', gen_direct, 26, 200),
                             ('history', gen_history, 22, 150)):
         t0 = time.time()
         for case in gen(ctx, ctx.budget(q, t)):
